@@ -350,6 +350,14 @@ func c17Documents(rep *Report, worlds []*World, full bool) {
 				What: fmt.Sprintf("genesis passes validation but InitGenesis fails: %v  [%s]", ipan, trunc(label, 300))})
 			return
 		}
+		// the initialised state must CONTAIN the document: what the module exports right after the import is the document's
+		// content (as sets; for a key the document lists more than once any of its values; all-zero entries are left open)
+		if problem := docContentProblem(g, w.App.OrbiterKeeper.ExportGenesis(b)); problem != "" {
+			rep.Outcome("doc-accepted-but-content-lost")
+			rep.Violate(Violation{Kind: "initialised-state-is-not-the-document", Group: label[:strings.Index(label+"=", "=")], Sig: sig, Replay: replay,
+				What: fmt.Sprintf("genesis passes validation and initialises, but the state exported right afterwards is not the document's content: %s  [%s]", problem, trunc(label, 300))})
+			return
+		}
 		// the state created by this genesis must itself export / validate / re-import
 		if _, _, problem := w.genesisRoundTrip(b); problem != "" {
 			rep.Violate(Violation{Kind: "state-from-validated-genesis-does-not-round-trip", Group: label[:strings.Index(label+"=", "=")], Sig: sig, Replay: replay,
@@ -607,4 +615,112 @@ func sortedKeys[V any](m map[string]V) []string {
 	}
 	sort.Strings(ks)
 	return ks
+}
+
+
+// docContentProblem compares a genesis document with the export taken right after importing it.
+func docContentProblem(doc, exp *orbtypes.GenesisState) string {
+	if doc == nil || exp == nil || doc.DispatcherGenesis == nil || exp.DispatcherGenesis == nil || doc.ForwarderGenesis == nil || exp.ForwarderGenesis == nil ||
+		doc.ExecutorGenesis == nil || exp.ExecutorGenesis == nil || doc.AdapterGenesis == nil || exp.AdapterGenesis == nil {
+		return ""
+	}
+	if doc.AdapterGenesis.Params.MaxPassthroughPayloadSize != exp.AdapterGenesis.Params.MaxPassthroughPayloadSize {
+		return fmt.Sprintf("params %d exported as %d", doc.AdapterGenesis.Params.MaxPassthroughPayloadSize, exp.AdapterGenesis.Params.MaxPassthroughPayloadSize)
+	}
+	set := func(xs []string) string { s := append([]string{}, xs...); sort.Strings(s); return strings.Join(s, ",") }
+	var dp, ep, dc, ec, da, ea []string
+	for _, p := range doc.ForwarderGenesis.PausedProtocolIds {
+		dp = append(dp, p.String())
+	}
+	for _, p := range exp.ForwarderGenesis.PausedProtocolIds {
+		ep = append(ep, p.String())
+	}
+	for _, c := range doc.ForwarderGenesis.PausedCrossChainIds {
+		if c != nil {
+			dc = append(dc, fmt.Sprintf("%d|%q", int32(c.ProtocolId), c.CounterpartyId))
+		}
+	}
+	for _, c := range exp.ForwarderGenesis.PausedCrossChainIds {
+		if c != nil {
+			ec = append(ec, fmt.Sprintf("%d|%q", int32(c.ProtocolId), c.CounterpartyId))
+		}
+	}
+	for _, a := range doc.ExecutorGenesis.PausedActionIds {
+		da = append(da, a.String())
+	}
+	for _, a := range exp.ExecutorGenesis.PausedActionIds {
+		ea = append(ea, a.String())
+	}
+	if set(dp) != set(ep) {
+		return fmt.Sprintf("paused protocols %v exported as %v", dp, ep)
+	}
+	if set(dc) != set(ec) {
+		return fmt.Sprintf("paused cross-chains %v exported as %v", dc, ec)
+	}
+	if set(da) != set(ea) {
+		return fmt.Sprintf("paused actions %v exported as %v", da, ea)
+	}
+	idOf := func(c *core.CrossChainID) string {
+		if c == nil {
+			return "nil"
+		}
+		return fmt.Sprintf("%d|%q", int32(c.ProtocolId), c.CounterpartyId)
+	}
+	docA, expA := map[string][]string{}, map[string]string{}
+	for _, e := range doc.DispatcherGenesis.DispatchedAmounts {
+		if e.AmountDispatched.Incoming.IsNil() || e.AmountDispatched.Outgoing.IsNil() || (e.AmountDispatched.Incoming.IsZero() && e.AmountDispatched.Outgoing.IsZero()) {
+			continue
+		}
+		k := idOf(e.SourceId) + ">" + idOf(e.DestinationId) + "/" + e.Denom
+		docA[k] = append(docA[k], e.AmountDispatched.Incoming.String()+"/"+e.AmountDispatched.Outgoing.String())
+	}
+	for _, e := range exp.DispatcherGenesis.DispatchedAmounts {
+		expA[idOf(e.SourceId)+">"+idOf(e.DestinationId)+"/"+e.Denom] = e.AmountDispatched.Incoming.String() + "/" + e.AmountDispatched.Outgoing.String()
+	}
+	for k, vs := range docA {
+		got, ok := expA[k]
+		match := false
+		for _, v := range vs {
+			if v == got {
+				match = true
+			}
+		}
+		if !ok || !match {
+			return fmt.Sprintf("statistics entry %s = %v is exported as %q (present=%v); exported amounts: %d entries", k, vs, got, ok, len(expA))
+		}
+	}
+	for k := range expA {
+		if _, ok := docA[k]; !ok && expA[k] != "0/0" {
+			return fmt.Sprintf("the export contains a statistics entry %s = %s the document does not have", k, expA[k])
+		}
+	}
+	docC, expC := map[string][]uint64{}, map[string]uint64{}
+	for _, e := range doc.DispatcherGenesis.DispatchedCounts {
+		if e.Count == 0 {
+			continue
+		}
+		k := idOf(e.SourceId) + ">" + idOf(e.DestinationId)
+		docC[k] = append(docC[k], e.Count)
+	}
+	for _, e := range exp.DispatcherGenesis.DispatchedCounts {
+		expC[idOf(e.SourceId)+">"+idOf(e.DestinationId)] = e.Count
+	}
+	for k, vs := range docC {
+		got, ok := expC[k]
+		match := false
+		for _, v := range vs {
+			if v == got {
+				match = true
+			}
+		}
+		if !ok || !match {
+			return fmt.Sprintf("count entry %s = %v is exported as %d (present=%v)", k, vs, got, ok)
+		}
+	}
+	for k := range expC {
+		if _, ok := docC[k]; !ok && expC[k] != 0 {
+			return fmt.Sprintf("the export contains a count entry %s = %d the document does not have", k, expC[k])
+		}
+	}
+	return ""
 }
